@@ -1017,6 +1017,11 @@ pub async fn process_multiple_changes(
             if let Some(snap) = snapshots.remove(&actor_id) {
                 booked_write.commit_snapshot(snap);
             }
+            #[cfg(feature = "verif")]
+            klukai_types::verif::emit(
+                "pmc_commit",
+                serde_json::json!({"node": agent.actor_id(), "actor": actor_id, "processed": processed.iter().map(|(versions, partial)| serde_json::json!({"vlo": versions.start().0, "vhi": versions.end().0, "partial": partial.as_ref().map(|p| p.seqs.iter().map(|r| (r.start().0, r.end().0)).collect::<Vec<_>>())})).collect::<Vec<_>>()}),
+            );
 
             for (versions, partial) in processed {
                 let version = *versions.start();
